@@ -271,7 +271,7 @@ def run(ctx, prop, rule_text):
             elif k == "rename" and prop == "C15":
                 nren += 1
                 # same declarations flagged (by line; columns of the names shift with the new spelling)
-                strip = lambda pml: [[re.sub(r"-\d+:\d+$", "", x) for x in m] for m in pml]
+                strip = lambda pml: [sorted(re.sub(r":\d+-\d+:\d+$", "", x) for x in m) for m in pml]   # by line: columns move with the spelling (two declarations may share a line)
                 if strip(pm) != strip(bpm):
                     fail("C15:rename", "the unused-variable verdicts changed under a consistent renaming", j,
                          {"original": cases[base]["text"], "per_method_original": bpm, "per_method_renamed": pm})
